@@ -856,6 +856,18 @@ mod api {
                     if again.get_suggestions().get(again.previously_selected_index()) != Some(&text) {
                         o.fail(json!({"clause": "C09 learned choice preselected in the same context", "history": s.history(), "observed": show(&again), "expected": text}));
                     }
+                    // reached through a longer text and a backspace: the same preselection (C05: only the surviving text counts)
+                    {
+                        let mut detour = Sess::new(cfgv.clone());
+                        let inner: String = if w.ends_with('"') { w[..w.len() - 1].to_string() } else { w.to_string() };
+                        let _ = detour.typ(&format!("{}x", inner));
+                        let mut b = detour.bs(false);
+                        if w.ends_with('"') { b = detour.key('"', b.previously_selected_index() as u8); }
+                        if b.is_lonely() || b.get_suggestions().get(b.previously_selected_index()) != Some(&text) {
+                            o.fail(json!({"clause": "C05 C09 the learned choice is preselected also when the text is reached with a backspace (the preselected index depends on the surviving text only)", "history": detour.history(), "observed": show(&b), "expected": text}));
+                        }
+                        detour.finish();
+                    }
                     let mut fresh = Sess::new(cfgv.clone());
                     let a2 = fresh.typ(w).unwrap(); fresh.finish();
                     if a2.get_suggestions().get(a2.previously_selected_index()) != Some(&text) {
